@@ -720,18 +720,20 @@ def process_rows(row, row_sx, row_ex, no_go, row_space, r_a, rotate, intersectio
             indices.append(j)
     inters = inters[indices]
     num_inters = len(inters)
+    # which stretches are narrow no-go crossings is decided on the crossings as found, not on ones an earlier widening has moved
+    found = inters.copy()
     for i in range(num_inters - 1):
         space = sqrt(
-            (inters[i + 1][0] - inters[i][0]) * (inters[i + 1][0] - inters[i][0])
-            + (inters[i + 1][1] - inters[i][1]) * (inters[i + 1][1] - inters[i][1])
+            (found[i + 1][0] - found[i][0]) * (found[i + 1][0] - found[i][0])
+            + (found[i + 1][1] - found[i][1]) * (found[i + 1][1] - found[i][1])
         )
         if space < row_space:
             i_none = False
             for shape in no_go:
                 if shape.point_intersect(
                     [
-                        (inters[i + 1][0] + inters[i][0]) / 2,
-                        (inters[i + 1][1] + inters[i][1]) / 2,
+                        (found[i + 1][0] + found[i][0]) / 2,
+                        (found[i + 1][1] + found[i][1]) / 2,
                     ]
                 ):
                     i_none = True
@@ -749,6 +751,18 @@ def process_rows(row, row_sx, row_ex, no_go, row_space, r_a, rotate, intersectio
                         p[0], p[1] = row_ex[0], row_ex[1]
                     elif t < 0.0:
                         p[0], p[1] = row_sx[0], row_sx[1]
+
+    def fill_between(k):
+        p, q = inters[k], inters[k + 1]
+        if (q[0] - p[0]) * (row_ex[0] - row_sx[0]) + (q[1] - p[1]) * (row_ex[1] - row_sx[1]) > 0.0:
+            distribute(p, q, row_space, r_a, rotate)
+            return
+        # the widened gaps of two narrow no-go crossings overlap (the stretch runs backwards): room for one borehole at most, in the
+        # middle of the free stretch as found - the middle of the widened points may lie inside one of the zones
+        mid = [(found[k][0] + found[k + 1][0]) / 2, (found[k][1] + found[k + 1][1]) / 2]
+        if not_inside(mid, no_go) and (len(r_a) == 0 or not (r_a[len(r_a) - 1][0] == mid[0] and r_a[len(r_a) - 1][1] == mid[1])):
+            r_a[len(r_a)] = mid
+
     if num_col < 1:
         ins = False
         for shape in no_go:
@@ -786,7 +800,7 @@ def process_rows(row, row_sx, row_ex, no_go, row_space, r_a, rotate, intersectio
             elif i == num_inters - 1:
                 distribute(inters[num_inters - 1], row_ex, row_space, r_a, rotate)
             else:
-                distribute(inters[i], inters[i + 1], row_space, r_a, rotate)
+                fill_between(i)
             i += 2
     else:
         ins = False
@@ -804,7 +818,7 @@ def process_rows(row, row_sx, row_ex, no_go, row_space, r_a, rotate, intersectio
                     i += 2
                     continue
                 else:
-                    distribute(inters[i], inters[i + 1], row_space, r_a, rotate)
+                    fill_between(i)
                 i += 2
         else:
             i = 0
@@ -818,7 +832,7 @@ def process_rows(row, row_sx, row_ex, no_go, row_space, r_a, rotate, intersectio
                     i += 2
                     continue
                 else:
-                    distribute(inters[i], inters[i + 1], row_space, r_a, rotate)
+                    fill_between(i)
                 i += 2
 
     return r_a
